@@ -6,7 +6,7 @@ import SpsdkVerif.Proofs.Registers
 import SpsdkVerif.Proofs.BinImage
 import SpsdkVerif.Properties.C16
 import SpsdkVerif.Proofs.Misc
-import SpsdkVerif.Generated.PfrFuns
+import SpsdkVerif.Base.BitExpr
 
 namespace SpsdkVerif.CfgArea
 open SpsdkVerif SpsdkVerif.Misc SpsdkVerif.BinImg
@@ -405,20 +405,20 @@ theorem invLow8_keeps (v : Nat) (hv : v < 2 ^ 32) : invLow8 v &&& 0xFFFF00FF = v
     · simp [h, h2, show ¬ i - 8 < 8 by omega]
     · simp [h, h2]
 
-/-! ## the generated (AST-translated) functions compute the same -/
+/-! ## the rule functions as bit expressions (specification side; the generated side is Generated/PfrRules.lean) -/
 
-theorem pyXor_nat (a : Nat) (b : Int) : pyXor (a : Int) b = ((a ^^^ b.toNat : Nat) : Int) := by
-  simp [pyXor]
+open SpsdkVerif.BitExpr in
+/-- `invHighHalf` as a bit expression -/
+def specRule0 : BitExpr.BExpr :=
+  .or (.and .var (.lit 0xFFFF)) (.shl (.xor (.and .var (.lit 0xFFFF)) (.lit 0xFFFF)) 16)
 
-theorem pfrInverseHighHalf_agrees (v : Nat) :
-    Generated.PfrFuns.pfrInverseHighHalf (v : Int) = .ok ((invHighHalf v : Nat) : Int) := by
-  simp only [Generated.PfrFuns.pfrInverseHighHalf, invHighHalf, pyAnd_nat, pyXor_nat, pyShl_nat, pyOr_nat]
-  rfl
+open SpsdkVerif.BitExpr in
+/-- `invLow8` as a bit expression -/
+def specRule1 : BitExpr.BExpr :=
+  .or (.and .var (.lit 0xFFFF00FF)) (.shl (.xor (.and .var (.lit 0xFF)) (.lit 0xFF)) 8)
 
-theorem pfrInverseLower8Bits_agrees (v : Nat) :
-    Generated.PfrFuns.pfrInverseLower8Bits (v : Int) = .ok ((invLow8 v : Nat) : Int) := by
-  simp only [Generated.PfrFuns.pfrInverseLower8Bits, invLow8, pyAnd_nat, pyXor_nat, pyShl_nat, pyOr_nat]
-  rfl
+theorem specRule0_eval (v : Nat) : BitExpr.eval specRule0 v = invHighHalf v := rfl
+theorem specRule1_eval (v : Nat) : BitExpr.eval specRule1 v = invLow8 v := rfl
 
 /-! ## computeAll -/
 
